@@ -40,6 +40,11 @@ def main():
 
   c = ctxmod.Ctx(pid, args.tier, seed, getattr(mod, "LEVEL", "exploration"))
   c.budget_s = args.budget
+  if c.budget_s is None and args.tier == "thorough":
+    # thorough tiers stop handing out new items after this many seconds; what was skipped is
+    # reported as a cap in the evidence (exhaustive=false). VT_THOROUGH_BUDGET=0 removes the limit.
+    b = float(os.environ.get("VT_THOROUGH_BUDGET", "2400"))
+    c.budget_s = b if b > 0 else None
   try:
     mod.run(c)
   except Exception:  # pylint: disable=broad-except
